@@ -62,6 +62,16 @@ def t_split(h):
     e, l = r
     for name, text in K.SPLIT_ENSURES.items():
         h.prove(h.ev(text, c=c, p=p, e=e, l=l), f'split_candle.{name}', {'clause': text})
+    # the two parts ARE the two halves of the one price path (open-low-high-close for a rising or doji candle, open-high-low-close
+    # for a falling one - the same path the candidates are sorted by): every price the path reaches before p lies in the earlier
+    # part, every price it first reaches after p lies in the later part (q arbitrary inside the candle)
+    q = h.real('q')
+    h.assume(h.ev('c[4] <= q and q <= c[3]', c=c, q=q))
+    tq, tp = h.spec('path_time', c, q), h.spec('path_time', c, p)
+    in_l = ops.land(ops.compare('<=', l.e[4], q), ops.compare('<=', q, l.e[3]))
+    in_e = ops.land(ops.compare('<=', e.e[4], q), ops.compare('<=', q, e.e[3]))
+    h.prove(ops.implies(ops.compare('>', tq, tp), in_l), 'split_candle.later-part-holds-what-the-path-reaches-after-the-split-price')
+    h.prove(ops.implies(ops.compare('<', tq, tp), in_e), 'split_candle.earlier-part-holds-what-the-path-reached-before-the-split-price')
     h.prove(h.ev(K.SPLIT_MUSTFAIL, c=c, p=p, e=e, l=l), 'split_candle.mustfail')
 
 
